@@ -139,6 +139,9 @@ _regm("fresh", "astype flatten dot min max sum mean any all argmin argmax argsor
       "format join split strip startswith endswith lower upper index count round std var prod nonzero "
       "conj conjugate tobytes item issubset isdisjoint")
 _regm("fresh alias:recv", "reshape ravel squeeze transpose view swapaxes")
+# scipy.sparse format conversions: the same matrix when it already has that format
+_regm("fresh alias:recv", "tocsr tocsc tocoo tolil todok tobsr asformat")
+_regm("fresh", "toarray todense")
 _regm("elems:recv", "items keys values")
 _regm("elem:recv", "get")
 # matplotlib Axes / Figure / Axis methods: read their arguments
